@@ -41,7 +41,8 @@ RULE = (
 )
 ASSUMPTIONS = [
     "heterogeneous full permeability / heterogeneous Lame parameters, mixed Dirichlet/Neumann boundary (variant 0) or "
-    "all-Dirichlet (variant 1); Biot with two coupling keywords (scalar and tensor alpha)",
+    "all-Dirichlet (variant 1); every material field takes a distinct value in every cell; Biot with two coupling "
+    "keywords (a scalar and a cell-wise varying full tensor alpha)",
     "equality tolerance 1e-12 * max|reference matrix| (measured floor 4e-15); untouched rows: exact equality",
     "the target rows of a partial update are the code's own `active_faces` (checked to cover all faces that share a "
     "node with a target cell); only those rows are demanded for mech 1/2",
@@ -77,13 +78,31 @@ def _fields(nc, dim, alt):
     c = np.arange(nc)
     a = np.zeros(nc, dtype=bool)
     a[list(alt)] = True
-    kxx = np.where(a, 2.0 + ((c + 1) % 3), 1.0 + (c % 3))
-    kyy = np.where(a, 1.5 + ((c + 2) % 4), 1.0 + ((2 * c + 1) % 5))
-    kzz = np.where(a, 3.0 + (c % 2), 2.0 + ((c + 1) % 3))
-    kxy = np.where(a, 0.25, 0.5) * np.ones(nc)
-    mu = np.where(a, 2.5 + (c % 3), 1.0 + (c % 2))
-    lam = np.where(a, 0.5 + ((c + 1) % 2), 1.0 + ((c + 1) % 3))
+    # every field takes a different value in every cell (the 0.0x * c terms), so that a coefficient taken from the
+    # wrong cell is always visible
+    kxx = np.where(a, 2.0 + ((c + 1) % 3), 1.0 + (c % 3)) + 0.03 * c
+    kyy = np.where(a, 1.5 + ((c + 2) % 4), 1.0 + ((2 * c + 1) % 5)) + 0.02 * c
+    kzz = np.where(a, 3.0 + (c % 2), 2.0 + ((c + 1) % 3)) + 0.01 * c
+    kxy = np.where(a, 0.25, 0.5) * np.ones(nc) + 0.005 * c
+    mu = np.where(a, 2.5 + (c % 3), 1.0 + (c % 2)) + 0.05 * c
+    lam = np.where(a, 0.5 + ((c + 1) % 2), 1.0 + ((c + 1) % 3)) + 0.04 * c
     return kxx, kyy, kzz, kxy, mu, lam
+
+
+def _alpha(nc, dim, alt):
+    """Cell-wise varying Biot coupling tensor (distinct in every cell)."""
+    import porepy as pp
+
+    c = np.arange(nc)
+    a = np.zeros(nc, dtype=bool)
+    a[list(alt)] = True
+    axx = np.where(a, 0.6, 1.0) + 0.04 * c
+    ayy = np.where(a, 1.4, 2.0) - 0.03 * c
+    azz = 3.0 + 0.02 * c
+    axy = 0.1 + 0.01 * c
+    if dim == 3:
+        return pp.SecondOrderTensor(kxx=axx, kyy=ayy, kzz=azz, kxy=axy, kxz=0.5 * axy, kyz=0.25 * axy)
+    return pp.SecondOrderTensor(kxx=axx, kyy=ayy, kxy=axy)
 
 
 def _data(g, info, method, variant, inv, alt=(), extra=None):
@@ -108,9 +127,7 @@ def _data(g, info, method, variant, inv, alt=(), extra=None):
         par = {"bc": pp.BoundaryConditionVectorial(g, bf, lab), "fourth_order_tensor": pp.FourthOrderTensor(mu, lam),
                "inverter": inv}
         if method == "biot":
-            o = np.ones(nc)
-            alpha = pp.SecondOrderTensor(kxx=o, kyy=2 * o, kzz=3 * o) if dim == 3 else pp.SecondOrderTensor(kxx=o, kyy=2 * o)
-            par["scalar_vector_mappings"] = {"a": 0.75, "b": alpha}
+            par["scalar_vector_mappings"] = {"a": 0.75, "b": _alpha(nc, dim, alt)}
     if extra:
         par.update(extra)
     data = {pp.PARAMETERS: {kw: par}, pp.DISCRETIZATION_MATRICES: {kw: {}}}
